@@ -1087,7 +1087,7 @@ class Circuit(Function):
         """
 
         def _replace_inputs(inputs: tp.Sequence[gate.Label], new_type: gate.GateType):
-            for input_label in inputs:
+            for input_label in list(inputs):
                 if self.get_gate(input_label).gate_type != gate.INPUT:
                     raise GateNotInputError()
                 self._gates[input_label] = gate.Gate(input_label, new_type)
